@@ -30,6 +30,9 @@ pub struct Sc {
     pub opening: Dec,
     pub procs: Vec<Proc>,
     pub flavour: u8,
+    /// when set, the run exercises the camt.053 importer instead of the CSV one
+    #[serde(default)]
+    pub camt: Option<crate::checks::camt::Sc>,
 }
 
 const PAYEES: &[&str] = &[
@@ -126,6 +129,10 @@ fn gen_rules(rng: &mut Rng, rich: bool, has_category: bool, has_sec: bool) -> Ve
         });
     }
     rules
+}
+
+pub fn gen_sc_pub(rng: &mut Rng, flavour: u8) -> Sc {
+    gen_sc(rng, flavour)
 }
 
 fn gen_sc(rng: &mut Rng, flavour: u8) -> Sc {
@@ -434,6 +441,7 @@ fn gen_sc(rng: &mut Rng, flavour: u8) -> Sc {
         opening,
         procs,
         flavour,
+        camt: None,
     }
 }
 
@@ -556,7 +564,9 @@ fn import_statement(sc: &Sc, k: usize, out: &mut RunOut, rule_prefix: &str) -> O
                     (Err(a), Err(b)) => a == b,
                     _ => false,
                 };
-                if !same {
+                if !same && rule_prefix == "C16" {
+                    out.count("foreign.depends-on-schedule");
+                } else if !same {
                     out.violate_keyed(
                         &format!("{}/chunking-changes-output", rule_prefix),
                         "processes",
@@ -576,6 +586,9 @@ fn import_statement(sc: &Sc, k: usize, out: &mut RunOut, rule_prefix: &str) -> O
 }
 
 fn sample(sc: &Sc) -> serde_json::Value {
+    if let Some(c) = &sc.camt {
+        return crate::checks::camt::sample(c);
+    }
     serde_json::json!({
         "config": docs_yaml(&sc.docs),
         "statement_path": sc.file,
@@ -586,6 +599,16 @@ fn sample(sc: &Sc) -> serde_json::Value {
 }
 
 fn shrinks(sc: &Sc) -> Vec<Sc> {
+    if let Some(c) = &sc.camt {
+        return crate::checks::camt::shrinks(c)
+            .into_iter()
+            .map(|x| {
+                let mut s = sc.clone();
+                s.camt = Some(x);
+                s
+            })
+            .collect();
+    }
     let mut out = Vec::new();
     if sc.procs.len() > 1 {
         for i in 0..sc.procs.len() {
@@ -705,7 +728,7 @@ pub fn text_cause(ts: &[CTxn]) -> String {
 }
 
 /// Why the differing field of one transaction did not survive the round trip.
-fn diff_cause(field: &str, built: &CTxn, read: &CTxn) -> String {
+pub fn diff_cause(field: &str, built: &CTxn, read: &CTxn) -> String {
     let p = built.payee.as_str();
     match field {
         "payee" | "code" | "state" => {
@@ -756,10 +779,19 @@ impl Check for C15 {
     }
 
     fn generate(&self, rng: &mut Rng, _tier: Tier, _index: u64) -> Sc {
-        gen_sc(rng, 15)
+        let mut sc = gen_sc(rng, 15);
+        if rng.chance(1, 4) {
+            sc.camt = Some(crate::checks::camt::gen_sc(rng, true, false));
+        }
+        sc
     }
 
     fn execute(&self, sc: &Sc, out: &mut RunOut) {
+        if let Some(c) = &sc.camt {
+            crate::checks::camt::c15_leg(c, out);
+            return;
+        }
+        out.count("importer.csv");
         let eff = match effective(sc) {
             Ok(e) => e,
             Err(_) => {
@@ -852,7 +884,7 @@ impl Check for C15 {
     }
 
     fn rule(&self) -> &'static str {
-        "seeded CSV statements (column layout by index or label, template payee, delimiter , ; tab, 0-2 skipped head lines, four date formats, amount or credit/debit columns, optional balance, commodity, rate / quantity / symbol, category, note and fee columns, either row order, asset or liability, grouping commas, configured precisions) whose payee, note and category carry hostile text (';', leading '(' '*' '!', two spaces, tab, line break inside a quoted field, a fake posting line, a fake transaction header, leading/trailing spaces, quotes, commas, '=' '@', full-width text, empty) under rewrite rules with named captures; 2-3 simulated processes differing in hash seed and in the chunking of the YAML and CSV streams (and short writes / EINTR on stdout for the shipped command) must print identical bytes; the printed text is parsed with okane's own parser and compared field by field with the tree Txn::to_double_entry built (numbers by value; printed scale between the value's own and the configured precision); the entry count after appending to a ledger grows by exactly the record count; Viseca and camt.053 are not covered here (camt.053 text is covered by the C18 check's read-back leg); non-trivial = some field carries hostile text; distinct = structural hash of the tape"
+        "seeded CSV statements (column layout by index or label, template payee, delimiter , ; tab, 0-2 skipped head lines, four date formats, amount or credit/debit columns, optional balance, commodity, rate / quantity / symbol, category, note and fee columns, either row order, asset or liability, grouping commas, configured precisions) whose payee, note and category carry hostile text (';', leading '(' '*' '!', two spaces, tab, line break inside a quoted field, a fake posting line, a fake transaction header, leading/trailing spaces, quotes, commas, '=' '@', full-width text, empty) under rewrite rules with named captures; 2-3 simulated processes differing in hash seed and in the chunking of the YAML and CSV streams (and short writes / EINTR on stdout for the shipped command) must print identical bytes; the printed text is parsed with okane's own parser and compared field by field with the tree Txn::to_double_entry built (numbers by value; printed scale between the value's own and the configured precision); the entry count after appending to a ledger grows by exactly the record count; a quarter of the runs put the same hostile text into the party names of camt.053 statements instead; Viseca is not covered; non-trivial = some field carries hostile text; distinct = structural hash of the tape"
     }
 
     fn assumptions(&self) -> Vec<&'static str> {
@@ -1116,10 +1148,19 @@ impl Check for C17 {
     }
 
     fn generate(&self, rng: &mut Rng, _tier: Tier, _index: u64) -> Sc {
-        gen_sc(rng, 17)
+        let mut sc = gen_sc(rng, 17);
+        if rng.chance(1, 3) {
+            sc.camt = Some(crate::checks::camt::gen_sc(rng, false, false));
+        }
+        sc
     }
 
     fn execute(&self, sc: &Sc, out: &mut RunOut) {
+        if let Some(c) = &sc.camt {
+            crate::checks::camt::c17_leg(c, out);
+            return;
+        }
+        out.count("importer.csv");
         let n_match = sc.docs.iter().filter(|d| sc.file.contains(&d.path)).count();
         out.add("probe.documents", sc.docs.len() as u64);
         out.add("probe.documents-applying", n_match as u64);
@@ -1251,7 +1292,7 @@ impl Check for C17 {
     }
 
     fn rule(&self) -> &'static str {
-        "1-6 configuration documents in shuffled order whose `path`s are substrings of the statement's path (or not: those carry junk that must not apply), the shortest carrying the required settings, later ones overriding account / operator and appending 1-6 rewrite rules each (case-insensitive regexes on payee / category / secondary_commodity, named groups payee and code, OR-lists of 2-3 elements, AND-elements of 1-3 fields, payee overrides, pending flags, several account-assigning rules matching one record); ConfigSet::select on the multi-document stream (chunked reader) must equal select on the single document the statement's merge produces; then every record's payee, code, counter-account (Income:/Expenses:Unknown when none) and pending mark from the importer are compared with the model's fold, in 2-3 simulated processes with different hash seeds; the camt.053 side of the rule engine (several capturing fields per element) is exercised by the C18 check; non-trivial = a judged record under at least two applying documents or two rules; distinct = structural hash of the tape"
+        "1-6 configuration documents in shuffled order whose `path`s are substrings of the statement's path (or not: those carry junk that must not apply), the shortest carrying the required settings, later ones overriding account / operator and appending 1-6 rewrite rules each (case-insensitive regexes on payee / category / secondary_commodity, named groups payee and code, OR-lists of 2-3 elements, AND-elements of 1-3 fields, payee overrides, pending flags, several account-assigning rules matching one record); ConfigSet::select on the multi-document stream (chunked reader) must equal select on the single document the statement's merge produces; then every record's payee, code, counter-account (Income:/Expenses:Unknown when none) and pending mark from the importer are compared with the model's fold, in 2-3 simulated processes with different hash seeds; a third of the runs fold rules over camt.053 statements instead, where every regex field captures (elements of 1-3 fields over creditor / debtor / ultimate debtor names, remittance and additional info, payee, domain codes); non-trivial = a judged record under at least two applying documents or two rules; distinct = structural hash of the tape"
     }
 
     fn assumptions(&self) -> Vec<&'static str> {
